@@ -57,7 +57,7 @@ PROPS = {
         ],
     },
     'C11': {
-        'v_units': ['trap', 'trapsrun'],
+        'v_units': ['trap', 'trapsrun', 'cmdlist'],
         'k_units': [],
         'level': 'proof',
         'explanation': (
@@ -86,7 +86,8 @@ PROPS = {
             'run_exit_trap (trap/exit.rs) runs the EXIT action, if it is a command, exactly once for the condition EXIT and nothing else. '
             'Not decided: take_caught_signal (iter_mut().find_map with a closure that returns a borrow; its per-record step '
             'handle_if_caught is proved), and WHEN traps run (command boundary, interrupted wait): that is scheduling of the '
-            'async read-eval loop.'),
+            'async read-eval loop.'
+            " Unit cmdlist (Verus, yash-semantics/src/command.rs): Command::execute runs exactly the one command it is (simple, compound or function definition), once, then exactly one trap round (run_traps_for_caught_signals), then refreshes the job statuses - nothing else - and answers the command's result unless only the traps diverted, the more severe divert if both did; List::execute runs its items in order, each exactly once, up to and including the first that diverts, hands that divert on unchanged and runs nothing after it (every item when none diverts)."),
         'trusted_base': ['Verus 0.2026.09.13 + Z3', 'vstd model of map entries (hash_map::Entry, used in place of btree_map::Entry)',
                          '/verif/tools/vextract.py'],
         'assumptions': [
@@ -98,6 +99,7 @@ PROPS = {
             'derived PartialEq is structural equality and derived Ord follows declaration order (Default < Ignore < Catch)',
             'source::Location is an opaque placeholder type; thiserror\'s #[from] expansion is written out by hand',
             'unit trapsrun: take_caught_signal, run_trap (lexer + read-eval loop), poll_signals, sigint_has_default_action and in_trap are opaque calls observed by a ghost monitor; the table invariant "a command action has origin User" is assumed there (it is what set_action / enter_subshell of unit trap establish); await points dropped; termination not claimed',
+            'unit cmdlist: executing a simple command / compound command / function definition / item, run_traps_for_caught_signals and update_all_subshell_statuses are opaque calls appending to an event log; Ord::max on Divert is a helper over an uninterpreted order; `Box::pin(async move { .. }).await` is checked as the block itself; `for item in &self.0` is a while loop over the index; await points dropped',
         ],
     },
     'C08': {
@@ -343,7 +345,7 @@ PROPS = {
         'assumptions': ['Mode::with_extensions only', 'two fixed option tables'],
     },
     'C02': {
-        'v_units': ['cmdsearch', 'looplevel', 'returnbi', 'whileloop', 'forloop', 'casecmd', 'condframe', 'simplecmd', 'funcall', 'subshellcmd', 'pipelinerun', 'asynclist'],
+        'v_units': ['cmdsearch', 'looplevel', 'returnbi', 'whileloop', 'forloop', 'casecmd', 'condframe', 'simplecmd', 'funcall', 'subshellcmd', 'pipelinerun', 'asynclist', 'cmdlist'],
         'k_units': ['loopcount'],
         'level': 'other',
         'explanation': (
@@ -404,7 +406,8 @@ PROPS = {
             'itself (search_path: iterator adapters over strings, assumed), Env::builtin (availability under posixly-correct / portable).'
             ' Unit subshellcmd (Verus, compound_command/subshell.rs execute + subshell_main): for `( ... )` exactly one child is started and what runs in it is subshell_main on exactly this body; the awaited result of exactly that child is interpreted once (handle_job_status), `$?` becomes the status it stands for, and errexit is consulted exactly once, afterwards, with that status (a failing subshell ends the shell under errexit) - unless interpreting the result diverts (stopped child / SIGINT in an interactive shell), which is handed on without errexit; a child that cannot be started gives an interrupt with the error status and leaves `$?` alone. Inside the child the body runs once, its result is applied (apply_result), and the EXIT trap runs exactly once, after both.'
             ' Unit pipelinerun (Verus, pipeline.rs execute_commands_in_pipeline, execute_job_controlled_pipeline, execute_multi_command_pipeline, shift_or_fail, pid_or_fail, connect_pipe_and_execute_command) against a monitor of the opaque pipe-set / start / wait calls: an empty pipeline has status 0; a one-command pipeline is exactly that command run in this shell, its result handed on, no second errexit; for two or more commands no command runs in this shell: without job control one child is started per command, in order, each right after the pipe set was shifted for it and with the pipe set as just shifted (a next pipe iff it is not the last command), the parent shifts once more (closing its last pipe end) BEFORE it waits, every child started is awaited exactly once, in order (the process IDs are pairwise distinct and each is still unreaped when awaited, so the `expect` cannot fail), none is left unreaped, and `$?` is the status of the last command or, under pipefail, of the rightmost one that failed (0 if none); with job control exactly one child is started for exactly these commands, its awaited result is interpreted once and `$?` is the status it stands for; in both cases errexit is consulted exactly once, at the very end, with that status, and its answer is the result; a failing pipe / start gives an interrupt with status 126 (NOEXEC). In a child, connect_pipe_and_execute_command connects the pipes first and runs the command once, only if that worked.'
-            " Unit asynclist (Verus, yash-semantics/src/command/item.rs Item::execute, execute_async, async_body, nullify_stdin): a synchronous item is exactly its and-or list, run in this shell, once; for `cmd &` exactly one child is started for exactly this and-or list, with background job control asked for and SIGINT / SIGQUIT ignored in it, the list does not run in this shell and the child is not awaited; if it was started, one job with its process ID enters the job table (owned, running, not yet reported; job-controlled iff job control was granted), `$!` becomes that process ID and `$?` is 0; if not, no job, `$!` untouched, an interrupt with status 126. In the child the list runs exactly once, its result is applied and the EXIT trap runs once, in this order; under job control standard input is left alone; nullify_stdin makes standard input /dev/null and changes nothing else (its assert_eq! is discharged from POSIX's lowest-free-descriptor rule)."),
+            " Unit asynclist (Verus, yash-semantics/src/command/item.rs Item::execute, execute_async, async_body, nullify_stdin): a synchronous item is exactly its and-or list, run in this shell, once; for `cmd &` exactly one child is started for exactly this and-or list, with background job control asked for and SIGINT / SIGQUIT ignored in it, the list does not run in this shell and the child is not awaited; if it was started, one job with its process ID enters the job table (owned, running, not yet reported; job-controlled iff job control was granted), `$!` becomes that process ID and `$?` is 0; if not, no job, `$!` untouched, an interrupt with status 126. In the child the list runs exactly once, its result is applied and the EXIT trap runs once, in this order; under job control standard input is left alone; nullify_stdin makes standard input /dev/null and changes nothing else (its assert_eq! is discharged from POSIX's lowest-free-descriptor rule)."
+            " Unit cmdlist (Verus, yash-semantics/src/command.rs): Command::execute runs exactly the one command it is (simple, compound or function definition), once, then exactly one trap round (run_traps_for_caught_signals), then refreshes the job statuses - nothing else - and answers the command's result unless only the traps diverted, the more severe divert if both did; List::execute runs its items in order, each exactly once, up to and including the first that diverts, hands that divert on unchanged and runs nothing after it (every item when none diverts)."),
         'trusted_base': ['Verus 0.2026.09.13 + Z3', 'Kani 0.68.0 + CBMC 6.11', '/verif/tools/vextract.py, /verif/tools/kunit.py'],
         'assumptions': [
             'unit cmdsearch: the methods of ClassifyEnv / PathEnv answer according to ghost views builtin_of / function_of / path_hit (implementor obligation, not verified); search_path is external_body (returns path_hit, leaves the environment alone); str::contains(char), CString::default / new are opaque helpers; Builtin / Function reduced to what the search reads; the raw identifier r#type is renamed (Verus aborts on it); derived PartialEq of Type is structural',
@@ -418,6 +421,7 @@ PROPS = {
             'unit subshellcmd: Config::foreground().start_and_wait(..) with its async closure, handle_job_status, apply_errexit / apply_result, print_error, List::execute and run_exit_trap are opaque calls that update a ghost monitor in the reduced Env (the job-name closure goes with the replaced call); await points dropped',
             'unit pipelinerun: PipeSet is a ghost view (number of shifts, has-next flag of the last shift; the real shift / move_to_stdin_stdout are verified in unit pipeset); Config::new().start(..) / Config::foreground().start_and_wait(..) with their async closures are opaque calls (what the child-side closures do after connect_pipe_and_execute_command - apply_result, run_exit_trap - is NOT under contract here); start answers a process ID that is not among the unreaped ones and no job control; wait_for_subshell_to_finish answers Ok(target, status) for an unreaped child of ours (unit waitsub has the real function); handle_job_status, apply_errexit, controls_jobs, OptionSet::get(PipeFail), print_error opaque; `commands.iter().cloned()` is an assumed model of the slice iterator; `for pid in pids` takes the first element off on every round; debug_assert_eq!(job_control, None) is an obligation; preconditions: a fresh monitor; await points dropped; what happens to children already started when a later pipe / start fails is not constrained',
             'unit asynclist: Config::new is the derived Default (assumed: no job control, nothing ignored); config.start(..) with its async closure is an opaque call recording the configuration and the and-or list (unit subshellstart has the real start); JobList::insert / set_last_async_pid, AndOrList::execute / to_string, apply_result, run_exit_trap, print_error, is_interactive opaque; the descriptor table is a model trait (close; open answers the lowest free descriptor); the C-string literal is a helper call (Verus has none); that standard input IS /dev/null without job control is proved for nullify_stdin but only stated for the job-control case in async_body (a failing nullify is ignored by the code); await points dropped',
+            'unit cmdlist: executing a simple command / compound command / function definition / item, run_traps_for_caught_signals and update_all_subshell_statuses are opaque calls appending to an event log; Ord::max on Divert is a helper over an uninterpreted order; `Box::pin(async move { .. }).await` is checked as the block itself; `for item in &self.0` is a while loop over the index; await points dropped',
         ],
     },
     'C05': {
